@@ -164,6 +164,7 @@ pub fn run(ctx: &mut Ctx) {
     ctx.floor("datagrams.ok", 1_000);
     ctx.floor("hs.types.fragmented", 256);
     ctx.floor("long-trailing", 300);
+    ctx.floor("hello.versions", 65536);
 
     // ------------------------------------------------ all declared lengths (alert records)
     ctx.sweep("sweep-length", 64, |ctx, idx| {
@@ -370,6 +371,25 @@ pub fn run(ctx: &mut Ctx) {
         }
     });
     ctx.mark_exhaustive("all 256 handshake types as fragments; cookie lengths 0..255");
+
+
+    // ------------------------------------------------ all 65536 version values in the three DTLS hello bodies
+    // (the version field does not select the body's grammar in DTLS: extension block and cookie must survive)
+    ctx.sweep("hello-versions", 64, |ctx, idx| {
+        let mut rng = Rng::new(idx ^ 0xD0D0);
+        for v in (idx * 1024)..((idx + 1) * 1024) {
+            let v = v as u16;
+            let mut sh = gen::server_hello(&mut rng, gen::TINY);
+            sh.version = v;
+            sh.ext = Some(rng.bytes((v % 5) as usize));
+            hs_case(ctx, &ADtlsHs::whole(v, ADtlsBody::ServerHello(sh)), &[], "hello-version");
+            let ch = ADch { version: v, random: rng.bytes(32), sid: gen::sid(&mut rng), cookie: rng.bytes((v as usize >> 3) & 0xff), ciphers: vec![0xc02f], comp: vec![0], ext: Some(vec![0, 23, 0, 0]) };
+            hs_case(ctx, &ADtlsHs::whole(v, ADtlsBody::ClientHello(ch)), &[1], "hello-version");
+            hs_case(ctx, &ADtlsHs::whole(v, ADtlsBody::HelloVerifyRequest { version: v, cookie: rng.bytes((v as usize) & 0xff) }), &[], "hello-version");
+            ctx.count("hello.versions");
+        }
+    });
+    ctx.mark_exhaustive("all 65536 version values in DTLS ClientHello / ServerHello / HelloVerifyRequest");
 
     // ------------------------------------------------ datagrams of several records
     let n = ctx.tier.pick(2_000, 20_000);
